@@ -131,6 +131,31 @@ func New() *World {
 	return &World{FSM: f, st: f.State(), Rec: rec, GC: gc, Backend: be, Next: StartIndex}
 }
 
+// Fork builds an independent world (its own event publisher, tombstone GC, storage backend and
+// FSM) whose state store starts as a copy-on-write clone of w's. w must not be written afterwards;
+// any number of forks may be taken concurrently.
+func (w *World) Fork() *World {
+	gc, err := state.NewTombstoneGC(time.Hour, time.Minute)
+	if err != nil {
+		panic(err)
+	}
+	gc.SetEnabled(true)
+	pub := stream.NewEventPublisher(10 * time.Second)
+	rec := &RecPublisher{Real: pub}
+	be, err := raftstorage.NewBackend(handle{}, nullLogger)
+	if err != nil {
+		panic(err)
+	}
+	src := w.st
+	f := fsm.NewFromDeps(fsm.Deps{
+		Logger:         nullLogger,
+		NewStateStore:  func() *state.Store { return src.VerifClone(rec) },
+		Publisher:      pub,
+		StorageBackend: be,
+	})
+	return &World{FSM: f, st: f.State(), Rec: rec, GC: gc, Backend: be, Next: w.Next, Hist: append([]string(nil), w.Hist...)}
+}
+
 func (w *World) bind() {
 	if w.FSM.State() != w.st {
 		w.FSM.VerifSetState(w.st, w.Backend)
